@@ -48,6 +48,18 @@ class VariableCacheProvider:
     def __init__(self):
         """Create new cache."""
         self.__cache = {}
+        self.__held = []
+
+    def hold(self, value: any):
+        """
+        Keep a cached value alive for as long as this cache is used.
+
+        The cache is keyed by id(value). The result of a watch expression is a temporary that is freed as soon as it
+        has been processed, and python can then give the same id to the next temporary.
+
+        :param value: the value whose identity has been cached
+        """
+        self.__held.append(value)
 
     def check_id(self, identity_hash_id) -> Optional[str]:
         """
@@ -178,6 +190,7 @@ class VariableSetProcessor(Collector):
 
         # process this node variable
         process_result = process_variable(self, node_value)
+        self.__var_cache.hold(node_value.value)
         var_id = process_result.variable_id
         # add the result to the parent - this maintains the hierarchy in the var look up
         node.parent.add_child(var_id)
